@@ -222,8 +222,10 @@ def set_claim_concrete(facts, b):
              ("empty object", lambda: om([]), "Object({})"), ("one-entry map {key: X}", lambda: om([("K", "X")]), "X"),
              ("one-entry map {other: X}", lambda: om([("other", "X")]), "Object({other: X})"), ("two-entry map {key: X, other: Y}", lambda: om([("K", "X"), ("other", "Y")]), "Object({K: X, other: Y})")]
     out = []
-    for key in ("K", ""):
-        for name, mk, want in (cases if key == "K" else cases[6:7]):
+    # (keys with blanks around them, in mixed case, and a blank-only key: a key is stored as it is given - trimmed, folded or dropped
+    # keys show here)
+    for key in ("K", "", " Kx\t", " "):
+        for name, mk, want in (cases if key == "K" else (cases[6:7] if key == "" else cases[3:4])):
             jv = mk()
 
             def m_json(I_, st_, info, args_, depth, jv=jv):
@@ -245,8 +247,8 @@ def set_claim_concrete(facts, b):
                 if not MI.is_map(m):
                     return None
                 got = dict((str(MD.str_key(I, o.state, e.fields["0"])[1]), show(I, o.state, e.fields["1"])) for e in MI._entries(m))
-                exp = {} if key == "" else {"K": want}
-                lab = "set_claim [%s%s]" % (name, ", empty key" if key == "" else "")
+                exp = {} if key == "" else {key: want}
+                lab = "set_claim [%s%s]" % (name, ", empty key" if key == "" else ("" if key == "K" else ", key %r" % key))
                 if got == exp:
                     out.append((True, "%s: %s" % (lab, "nothing stored" if key == "" else "stored as %s under the claim's key" % want)))
                 else:
@@ -589,13 +591,13 @@ def wrap(res, facts):
             return x.name
         return repr(x)
 
-    two_map = lambda: MI.mapv("m", [(A.StrV("k1"), A.Sym("V1")), (A.StrV("k2"), A.Sym("V2"))])
+    two_map = lambda: MI.mapv("m", [(A.StrV("k1"), A.Sym("V1")), (A.StrV(" "), A.Sym("V2"))])     # (the second key is a blank)
     cases = {
-        "wrap_claims": [("empty claim map", lambda: MI.mapv("m", []), "Object({})"), ("claim map {k1: V1, k2: V2}", two_map, "Object({k1: wrap_value(V1), k2: wrap_value(V2)})")],
+        "wrap_claims": [("empty claim map", lambda: MI.mapv("m", []), "Object({})"), ("claim map {k1: V1, ' ': V2}", two_map, "Object({ : wrap_value(V2), k1: wrap_value(V1)})")],
         "wrap_value": [("Null", lambda: val("Null"), "Null"), ("Bool", lambda: val("Bool", A.Sym("B")), "Bool(B)"), ("Number", lambda: val("Number", A.Sym("N")), "Number(N)"),
                        ("String", lambda: val("String", A.Sym("S")), "String(S)"), ("empty array", lambda: val("Array", A.Seq("arr", A.Aff(0), [], kind="vec")), "Array([])"),
                        ("array [E1, E2]", lambda: val("Array", A.Seq("arr", A.Aff(2), [A.Sym("E1"), A.Sym("E2")], kind="vec")), "Array([wrap_value(E1), wrap_value(E2)])"),
-                       ("empty object", lambda: val("Object", MI.mapv("m", [])), "Object({})"), ("object {k1: V1, k2: V2}", lambda: val("Object", two_map()), "Object({k1: wrap_value(V1), k2: wrap_value(V2)})")],
+                       ("empty object", lambda: val("Object", MI.mapv("m", [])), "Object({})"), ("object {k1: V1, ' ': V2}", lambda: val("Object", two_map()), "Object({ : wrap_value(V2), k1: wrap_value(V1)})")],
     }
     for fn, cs in cases.items():
         b = _fpai.find_body(facts, r"^crate::generic::.*::%s$" % fn)
